@@ -2,7 +2,7 @@
    (src/sm9_z256.c sm9_z256_modn_add/_sub/_from_hash, src/sm9_key.c sm9_z256_hash1,
    the H2 computation inside sm9_do_sign / sm9_do_verify).
    Impl = the C algorithm on integers (Barrett quotient estimate with the stored constant, one
-   wrapping 256-bit subtraction, no correction step, then +1 mod N);
+   wrapping 256-bit subtraction, one conditional subtraction of N-1, then +1 mod N);
    Spec = GM/T 0044: h = (Ha mod (N-1)) + 1. *)
 From Coq Require Import ZArith List.
 From GmVerif Require Import Base.Bytes Hash.MD Hash.SM3 Sm9.Tower.
@@ -25,11 +25,19 @@ Definition modn_sub (a b : Z) : Z :=
 
 (* the Barrett quotient estimate of sm9_z256_modn_from_hash:  ((z >> 192) * mu) >> 320 *)
 Definition fh_quot (z : Z) : Z := ((z / 2 ^ 192) * mu_nm1) / 2 ^ 320.
-(* sm9_z256_modn_from_hash on the 320-bit big-endian integer z of Ha[0..39] *)
+(* sm9_z256_modn_from_hash on the 320-bit big-endian integer z of Ha[0..39] (since 3d68e44:
+   one conditional subtraction of N-1 after the estimate) *)
 Definition from_hash_impl (z : Z) : Z :=
   let q := fh_quot z in
   let r := (q * (Nord - 1)) mod W256 in          (* low four limbs of the 512-bit product *)
   let h := (z mod W256 - r) mod W256 in          (* sm9_z256_sub, borrow dropped *)
+  let h := if Nord - 1 <=? h then h - (Nord - 1) else h in
+  modn_add h 1.
+(* the function before 3d68e44 (no correction step); kept for the named Examples only *)
+Definition from_hash_impl_old (z : Z) : Z :=
+  let q := fh_quot z in
+  let r := (q * (Nord - 1)) mod W256 in
+  let h := (z mod W256 - r) mod W256 in
   modn_add h 1.
 Definition from_hash_spec (z : Z) : Z := z mod (Nord - 1) + 1.
 
